@@ -500,6 +500,122 @@ example : (run lcg (MacState.init (RegionState.init .EU868) 14 0, 1) demoHistory
            confirmed := false, nwkKey := 1, appKey := 2, devAddr := 7, fcntUp := 2, fcntDown := some 9, adrAckCnt := 1 } := by
   decide +kernel
 
+/-! ## extended histories (Class C receptions inside the receive procedure, `Model/HistoryC.lean`)
+
+The type invariants of the session survive the acts of an extended receive procedure too (a Class C
+acceptance stores a 32-bit counter and keeps the queue; a Class A acceptance stores the fitting answers;
+`rx2_complete` saturates its counters), so a session persisted at ANY point of ANY extended history —
+in particular after a procedure in which Class C frames were accepted between the windows — restores to
+the identical device, and every extended continuation runs identically. -/
+
+def addrOkC : EvC → Bool
+  | .base e => addrOk e
+  | .joinC _ fault _ rx1 _ rx2 => addrOk (joinPlain fault rx1 rx2)
+  | .uplinkC _ _ _ _ _ _ _ _ _ => true
+
+theorem acts_sessInv (acts : List Act) : ∀ (m m' : MacState), SessInv m → Acts m acts m' → SessInv m' := by
+  induction acts with
+  | nil => intro m m' hi h; simp only [Acts] at h; subst h; exact hi
+  | cons a rest ih =>
+    intro m m' hi h
+    cases a with
+    | accC N d =>
+      simp only [Acts] at h
+      obtain ⟨s, hs, hN, h⟩ := h
+      have hw := hi s hs
+      exact ih _ m' (acceptState_inv m s d N (ctxC m s) hw hN ⟨hw.1, hw.2.1⟩) h
+    | accA N d snr =>
+      simp only [Acts] at h
+      obtain ⟨s, ctx, hs, hN, hc, h⟩ := h
+      exact ih _ m' (acceptState_inv m s d N ctx (hi s hs) hN (acceptCmds_pending _ _ _ d snr ctx hc)) h
+    | tmo =>
+      simp only [Acts] at h
+      exact ih _ m' (timeoutState_inv m hi) h
+
+/-- **every extended step keeps the session's type invariants** -/
+theorem stepC_sessInv {σ} (g : Rng σ) (m m' : MacState) (rs rs' : σ) (ev : EvC) (out : OutC) (gh : Gh)
+    (hr : GhRel m gh) (hi : SessInv m) (hv : evOkC ev = true ∧ addrOkC ev = true)
+    (h : stepC g (m, rs) ev = .ok ((m', rs'), out)) : SessInv m' := by
+  cases ev with
+  | base e => exact step_sessInv g m m' rs rs' e out.out gh hr hi hv (stepC_base g _ _ e out h).1
+  | joinC cc fault c1 rx1 c2 rx2 =>
+    exact step_sessInv g m m' rs rs' _ out.out gh hr hi ⟨evOk_joinPlain hv.1, hv.2⟩
+      (stepC_joinC_plain g _ _ cc fault c1 rx1 c2 rx2 out h).1
+  | uplinkC cc data fport conf fault c1 rx1 c2 rx2 =>
+    cases gh with
+    | none =>
+      obtain ⟨rfl, _, _⟩ := stepC_uplinkC_notJoined g m m' rs rs' hr cc data fport conf fault c1 rx1 c2 rx2 out h
+      exact hi
+    | some last =>
+      obtain ⟨s, hst, rfl, hl⟩ := hr
+      obtain ⟨so, m1, _, _, hst1, _, _, _, hacts, _⟩ :=
+        stepC_uplinkC_joined g m m' rs rs' s hst hl cc data fport conf fault c1 rx1 c2 rx2 hv.1 out h
+      refine acts_sessInv _ m1 m' ?_ hacts
+      intro s1 hs1
+      rw [hst1] at hs1; cases hs1
+      exact sentSession_wf s conf (hi s hst)
+
+/-- **C20 over every extended history.**  Run ANY extended history `evs1` (Class C receptions inside
+the receive procedure included) from a state whose session, if any, satisfies the type invariants;
+persist the session there; restore it into the device: the restored device IS the original, so every
+extended continuation `evs2` runs identically. -/
+theorem historyC_persist {σ} (g : Rng σ) (m : MacState) (rs : σ) (gh : Gh) (hr : GhRel m gh) (hi : SessInv m)
+    (evs1 : List EvC) (hv : ∀ ev ∈ evs1, evOkC ev = true ∧ addrOkC ev = true) (m1 : MacState) (rs1 : σ) (outs1 : List OutC)
+    (h : runC g (m, rs) evs1 = .ok ((m1, rs1), outs1)) :
+    SessInv m1 ∧ ∀ d, persist m1 = some d → restore m1 d = some m1 ∧
+      ∀ evs2, (restore m1 d).map (fun mr => runC g (mr, rs1) evs2) = some (runC g (m1, rs1) evs2) := by
+  have hinv : (∀ ev ∈ evs1, evOkC ev = true ∧ addrOkC ev = true) → SessInv m1 := by
+    clear hv
+    induction evs1 generalizing m rs gh outs1 with
+    | nil =>
+      intro _
+      simp only [runC, pure, Except.pure, Except.ok.injEq, Prod.mk.injEq] at h
+      obtain ⟨⟨rfl, _⟩, _⟩ := h
+      exact hi
+    | cons ev rest ih =>
+      intro hv
+      unfold runC at h
+      obtain ⟨⟨⟨m2, rs2⟩, o⟩, hs, h⟩ := Except.bind_eq_ok h
+      obtain ⟨⟨ms3, os⟩, hrest, h⟩ := Except.bind_eq_ok h
+      simp only [pure, Except.pure, Except.ok.injEq, Prod.mk.injEq] at h
+      obtain ⟨rfl, _⟩ := h
+      have hve := hv ev List.mem_cons_self
+      exact ih m2 rs2 _ (stepC_ghRel g m m2 rs rs2 ev o gh hr hve.1 hs)
+        (stepC_sessInv g m m2 rs rs2 ev o gh hr hi hve hs) os hrest (fun e he => hv e (List.mem_cons_of_mem _ he))
+  refine ⟨hinv hv, fun d hd => ?_⟩
+  have := restore_persist m1 (hinv hv) d hd
+  exact ⟨this, fun evs2 => by rw [this]; rfl⟩
+
+/-- **C20 on the async front-end, for EVERY script, both classes**: the MAC state a session of the
+async front-end ends in — whatever was heard inside its receive procedures — has a session that
+restores losslessly -/
+theorem asyncC_persist {σ} (g : Rng σ) (cfg : DevCfg) (d : DevRun) (rs : σ) (gh : Gh) (hr : GhRel d.m gh) (hi : SessInv d.m)
+    (ops : List AsyncOp) (hv : ∀ op ∈ ops, op.allView viewOk = true ∧ addrOkC (abstractOp cfg op) = true)
+    (obs : List OpObs) (d' : DevRun) (rs' : σ) (h : asyncOps g cfg d rs ops = .ok (obs, d', rs')) :
+    SessInv d'.m ∧ ∀ doc, persist d'.m = some doc → restore d'.m doc = some d'.m := by
+  obtain ⟨outs, hrun, _⟩ := asyncOps_runC g cfg d rs ops obs d' rs' h
+  have hev : ∀ ev ∈ abstractSessionC cfg ops, evOkC ev = true ∧ addrOkC ev = true := by
+    intro ev hev
+    obtain ⟨op, hop, rfl⟩ := List.mem_map.mp hev
+    exact ⟨abstractOp_evOkC cfg op (hv op hop).1, (hv op hop).2⟩
+  obtain ⟨h1, h2⟩ := historyC_persist g d.m rs gh hr hi _ hev d'.m rs' outs hrun
+  exact ⟨h1, fun doc hd => (h2 doc hd).1⟩
+
+/-! non-vacuity: persisted right after a procedure in which a confirmed Class C frame was accepted
+between TX and RX1 (ACK owed, both counters moved) -/
+def demoHistoryC : List EvC :=
+  [ .base (.joinAbp 7 1 2),
+    .uplinkC true [1] 1 false none [(.data { demoFrame with fcnt16 := 3, micFcnt := some 3 }, 5)] none [] none ]
+
+example : ∀ ev ∈ demoHistoryC, evOkC ev = true ∧ addrOkC ev = true := by decide
+example : (runC lcg (MacState.init (RegionState.init .EU868) 14 0, 1) demoHistoryC).toOption.bind
+      (fun r => (persist r.1.1).bind (restore r.1.1)) =
+    (runC lcg (MacState.init (RegionState.init .EU868) 14 0, 1) demoHistoryC).toOption.map (fun r => r.1.1) := by decide +kernel
+example : (runC lcg (MacState.init (RegionState.init .EU868) 14 0, 1) demoHistoryC).toOption.bind (fun r => persist r.1.1) =
+    some { uplink := { confirmed := true, pendingLen := 0, pendingData := [0, 0, 0, 0, 0, 0, 0, 0, 0, 0, 0, 0, 0, 0, 0] },
+           confirmed := false, nwkKey := 1, appKey := 2, devAddr := 7, fcntUp := 2, fcntDown := some 3, adrAckCnt := 1 } := by
+  decide +kernel
+
 end C20
 
 #print axioms C20.deser_ser
@@ -511,3 +627,6 @@ end C20
 #print axioms C20.restore_persist
 #print axioms C20.history_persist
 #print axioms C20.answers_bytes
+#print axioms C20.stepC_sessInv
+#print axioms C20.historyC_persist
+#print axioms C20.asyncC_persist
